@@ -85,7 +85,7 @@ Section Sem.
     match p with
     | Copy | UTC | IfNonZero | IfNonEmpty | IfNotNil => Some v
     | Hex => match v with VNil => Some (VBytes []) | _ => hexv v end
-    | UnHex => unhexv v
+    | UnHex => match v with VNil => Some VNil | _ => unhexv v end   (* an absent JSON member stays nil *)
     | PointStr | ScalarStr => hexv v
     | StrPoint | StrScalar => unhexv v
     | PointBytes | BytesPoint => bytesv v
@@ -196,6 +196,23 @@ Definition rel_holds (rl : crel) (a b : val) : bool :=
   | _, _, _ => false
   end.
 
+Fixpoint path_prefix (p q : path) : bool :=
+  match p, q with
+  | [], _ => true
+  | x :: p', y :: q' => String.eqb x y && path_prefix p' q'
+  | _, _ => false
+  end.
+
+Fixpoint cond_holds (r : record) (c : ccond) : bool :=
+  match c with
+  | CNonEmpty p => match get p r with Some v => negb (is_empty_val v) | None => false end
+  | CEmpty p => match get p r with Some v => is_empty_val v | None => true end
+  | CNonNil p => existsb (fun kv => path_prefix p (fst kv) && match snd kv with VNil => false | _ => true end) r
+  | CNotC c' => negb (cond_holds r c')
+  | CAndC a b => cond_holds r a && cond_holds r b
+  | CCondUnknown _ => false
+  end.
+
 Section Checks.
   Variable hostport_ok : bytes -> bool.   (* net.SplitHostPort succeeds *)
   Variable hs : bytes.                    (* HashString() of the value being decoded *)
@@ -212,6 +229,7 @@ Section Checks.
         match get p r with Some v => if is_empty_val v then false else chk_rejects r c' | None => false end
     | ChkIfLenPos p c' =>
         match get p r with Some v => if 0 <? vlen v then chk_rejects r c' else false | None => false end
+    | ChkIf g c' => if cond_holds r g then chk_rejects r c' else false
     | ChkHostPort p => match get p r with Some (VBytes a) => negb (hostport_ok a) | _ => false end
     | ChkScheme how p =>
         match get p r with
@@ -228,7 +246,30 @@ Section Checks.
   Definition checks_reject (d : mirror_def) (r : record) : bool := existsb (chk_rejects r) (m_checks d).
 End Checks.
 
-(* a decoder: its checks, then its conversion; nested decoders run their own checks *)
+(* legacy overrides of a decoder, applied in program order after the plain conversion *)
+Fixpoint set_leaf (leaf : path) (v : val) (r : record) : record :=
+  match r with
+  | [] => []
+  | (k, w) :: r' => if path_eqb k leaf then (k, v) :: r' else (k, w) :: set_leaf leaf v r'
+  end.
+Fixpoint apply_overrides (dur_str : Z -> bytes) (parse_dur : bytes -> option Z)
+    (nested : string -> record -> option record) (ovs : list override) (src out : record) : option record :=
+  match ovs with
+  | [] => Some out
+  | o :: rest =>
+      if cond_holds src (o_cond o) then
+        match get (e_src (o_entry o)) src with
+        | Some v =>
+            match sem_seq dur_str parse_dur nested (e_ops (o_entry o)) v with
+            | Some w => apply_overrides dur_str parse_dur nested rest src (set_leaf (e_dst (o_entry o)) w out)
+            | None => None
+            end
+        | None => None
+        end
+      else apply_overrides dur_str parse_dur nested rest src out
+  end.
+
+(* a decoder: its checks, then its conversion and its overrides; nested decoders run their own checks *)
 Fixpoint den_chk (dur_str : Z -> bytes) (parse_dur : bytes -> option Z) (hostport_ok : bytes -> bool)
     (hs : bytes) (tbl : list mirror_def) (name : string) (r : record) : option record :=
   match tbl with
@@ -236,7 +277,12 @@ Fixpoint den_chk (dur_str : Z -> bytes) (parse_dur : bytes -> option Z) (hostpor
   | d :: rest =>
       if String.eqb (m_name d) name then
         if checks_reject hostport_ok hs d r then None
-        else apply dur_str parse_dur (den_chk dur_str parse_dur hostport_ok hs rest) d r
+        else
+          let nst := den_chk dur_str parse_dur hostport_ok hs rest in
+          match apply dur_str parse_dur nst d r with
+          | Some out => apply_overrides dur_str parse_dur nst (m_overrides d) r out
+          | None => None
+          end
       else den_chk dur_str parse_dur hostport_ok hs rest name r
   end.
 Definition decode := den_chk.
@@ -374,6 +420,10 @@ Fixpoint rest_after (tbl : list mirror_def) (name : string) : list mirror_def :=
   | d :: rest => if String.eqb (m_name d) name then rest else rest_after rest name
   end.
 
+(* an override can fire only if all these hold *)
+Fixpoint conjuncts (c : ccond) : list ccond :=
+  match c with CAndC a b => conjuncts a ++ conjuncts b | _ => [c] end.
+
 Definition roundtrip_ok (tbl : list mirror_def) (verified : list (string * string))
     (a b : string) : bool :=
   match lookup tbl a, lookup tbl b with
@@ -397,8 +447,10 @@ Definition roundtrip_ok (tbl : list mirror_def) (verified : list (string * strin
       (* nested mirrors live further down the table *)
       forallb (fun n => existsb (String.eqb n) (names_of (rest_after tbl a))) (nested_names (m_entries enc)) &&
       forallb (fun n => existsb (String.eqb n) (names_of (rest_after tbl b))) (nested_names (m_entries dec)) &&
-      (* a legacy override must be keyed on a field the encoder never writes *)
-      forallb (fun o => negb (mem_path (o_guard o) (map e_dst (m_entries enc)))) (m_overrides dec)
+      (* a legacy override must require a member the encoder's output does not have *)
+      forallb (fun o => existsb (fun k => match k with
+                                          | CNonEmpty p => negb (mem_path p (m_dst_leaves enc))
+                                          | _ => false end) (conjuncts (o_cond o))) (m_overrides dec)
   | _, _ => false
   end.
 
